@@ -648,6 +648,12 @@ func sinkOrderIn(ctx *Ctx, r *Report, rule, key, why string, fn *ssa.Function, c
 	if origin != nil {
 		pos = origin.Pos()
 	}
+	if oc, isCall := origin.(*ssa.Call); isCall && origin != nil && len(st.renders) > 0 {
+		// from the moment the sink exists (creation succeeded) every way out closes it: a return
+		// squeezed in between creation and Render leaves its goroutine waiting for ever
+		okC := everyPathFromCreationHits(oc, instrIn(st.closes))
+		r.check(rule, key+"|closed-on-every-path-once-created", pos, okC, "every path from the successful creation of the sink to return must close its channel (one goroutine is left behind per such call otherwise)")
+	}
 	r.check(rule, key+"|wait-after-close", pos, okW, "every path from close(output) to return must pass wg.Wait() ("+why+")")
 	noEarly := true
 	for _, w := range st.waits {
@@ -717,7 +723,7 @@ func ruleConsumerLoop(ctx *Ctx, r *Report, gs goSite, loops []recvOp) {
 func consumerElementLoop(ctx *Ctx, r *Report, gs goSite, fn *ssa.Function, batch ssa.Value, outer *recvOp, depth int) {
 	// the range loop over batch: phi [-1, phi+1], cmp phi+1 < len(batch)
 	var idx ssa.Value // the element index: phi+1 of a range loop, or the phi of `for i := 0; i < len(batch); i++`
-	var hdr *ssa.BasicBlock
+	var hdr, boundBlk *ssa.BasicBlock
 	for _, b := range fn.Blocks {
 		for _, ins := range b.Instrs {
 			phi, ok := ins.(*ssa.Phi)
@@ -748,6 +754,16 @@ func consumerElementLoop(ctx *Ctx, r *Report, gs goSite, fn *ssa.Function, batch
 			if !ok {
 				continue
 			}
+			if isErrorCond(iff.Cond) {
+				// `for i := 0; err == nil && i < len(batch); i++`: the bound test follows the error test
+				for _, su := range b.Succs {
+					if i2, ok := su.Instrs[len(su.Instrs)-1].(*ssa.If); ok && len(su.Instrs) <= 3 {
+						if c2, ok := i2.Cond.(*ssa.BinOp); ok && c2.Op == token.LSS {
+							iff = i2
+						}
+					}
+				}
+			}
 			cmp, ok := iff.Cond.(*ssa.BinOp)
 			if !ok || cmp.Op != token.LSS {
 				continue
@@ -767,7 +783,7 @@ func consumerElementLoop(ctx *Ctx, r *Report, gs goSite, fn *ssa.Function, batch
 			if bi, ok := ln.Call.Value.(*ssa.Builtin); !ok || bi.Name() != "len" || ln.Call.Args[0] != batch {
 				continue
 			}
-			idx, hdr = cand, b
+			idx, hdr, boundBlk = cand, b, iff.Block()
 		}
 	}
 	if idx == nil && depth < 2 {
@@ -830,10 +846,10 @@ func consumerElementLoop(ctx *Ctx, r *Report, gs goSite, fn *ssa.Function, batch
 			}
 			uncond := true
 			for _, g := range branchGuards(ref.Block()) {
-				if !inLoop(g.at) {
+				if !inLoop(g.at) || g.at == boundBlk {
 					continue
 				}
-				if !isErrorCond(g.cond) {
+				if !isErrorCond(g.cond) && !isConstTripTest(g.at, g.cond) {
 					uncond = false
 				}
 			}
@@ -847,7 +863,7 @@ func consumerElementLoop(ctx *Ctx, r *Report, gs goSite, fn *ssa.Function, batch
 	}
 	// loop exits other than exhaustion must be error-gated
 	for _, b := range fn.Blocks {
-		if !inLoop(b) {
+		if !inLoop(b) || b == boundBlk {
 			continue
 		}
 		for _, s := range b.Succs {
@@ -904,4 +920,67 @@ func consumerElementLoop(ctx *Ctx, r *Report, gs goSite, fn *ssa.Function, batch
 		detail += "; a batch can be skipped without an error condition"
 	}
 	r.check("B5", gs.key+"|every-element-used-unconditionally", gs.instr.Pos(), okUse, "each element of each batch reaches the sink; only error flags may gate it. "+detail)
+}
+
+// everyPathFromCreationHits: like everyPathHits from the creating call, except that the branch
+// taken when the creation reported an error (the sink does not exist there) is not followed.
+func everyPathFromCreationHits(creation *ssa.Call, hit func(ssa.Instruction) bool) bool {
+	isCreationErr := func(v ssa.Value) bool {
+		ex, ok := v.(*ssa.Extract)
+		return ok && ex.Tuple == ssa.Value(creation) && ex.Index == 1
+	}
+	seen := map[*ssa.BasicBlock]bool{}
+	var walk func(b *ssa.BasicBlock, i int) bool
+	walk = func(b *ssa.BasicBlock, i int) bool {
+		for ; i < len(b.Instrs); i++ {
+			ins := b.Instrs[i]
+			if hit(ins) {
+				return true
+			}
+			if _, ok := ins.(*ssa.Return); ok {
+				return false
+			}
+		}
+		succs := b.Succs
+		if iff, ok := b.Instrs[len(b.Instrs)-1].(*ssa.If); ok && len(succs) == 2 {
+			if bo, ok := iff.Cond.(*ssa.BinOp); ok && (isCreationErr(bo.X) || isCreationErr(bo.Y)) {
+				switch bo.Op {
+				case token.NEQ:
+					succs = succs[1:] // err != nil: the true branch is the failure
+				case token.EQL:
+					succs = succs[:1]
+				}
+			}
+		}
+		for _, s := range succs {
+			if seen[s] {
+				continue
+			}
+			seen[s] = true
+			if !walk(s, 0) {
+				return false
+			}
+		}
+		return true
+	}
+	return walk(creation.Block(), instrIndex(creation)+1)
+}
+
+// isConstTripTest: cond is the header test `i < N` (N a positive constant) of a counted loop: a
+// loop over the three corners of a triangle is not a condition on the triangle.
+func isConstTripTest(at *ssa.BasicBlock, cond ssa.Value) bool {
+	bo, ok := cond.(*ssa.BinOp)
+	if !ok || bo.Op != token.LSS || at == nil {
+		return false
+	}
+	n, isC := constInt(bo.Y)
+	if !isC || n <= 0 {
+		return false
+	}
+	for _, p := range at.Preds {
+		if isBackEdge(p, at) {
+			return true
+		}
+	}
+	return false
 }
